@@ -100,3 +100,44 @@ pub fn c19(tier: &str) -> i32 {
         &|f: &str| f.split_once(" ## ").and_then(|(head, _)| head.split_whitespace().last().map(|s| s.to_string())).filter(|id| id.starts_with("KF-") || id.starts_with("KT-")),
     )
 }
+
+pub fn c05(tier: &str) -> i32 {
+    use crate::engines::sqlenum;
+    use crate::findings::Findings;
+    let thorough = tier == "thorough";
+    let f = Findings::load();
+    let listed: Vec<String> = f.ids_for("C05").into_iter().collect();
+    let g = |name: &str, chunk: u64, what: &str| FlatGroup { name: name.into(), size: sqlenum::group_size(name), chunk, what: what.into() };
+    let mut groups = vec![
+        g("where-atoms", 16, "SELECT * FROM t WHERE a / NOT a / NOT NOT a for every typed atom: comparisons col-literal and col-col (6 operators), IS [NOT] NULL, [NOT] BETWEEN, [NOT] IN (with and without NULL in the list), [NOT] LIKE, text comparisons, arithmetic with every associativity/precedence shape and unary minus, TRUE/FALSE"),
+        g("where-pairs", 256, "a AND b, a OR b for ALL ordered pairs of atoms"),
+        g("select-list", 32, "all ordered pairs of 12 select-list expressions (columns, arithmetic with precedence, unary minus, literals, NULL), plain and with aliases + WHERE"),
+        g("aggregates", 16, "COUNT(*) and COUNT/SUM/AVG/MIN/MAX of every column under 4 predicates (incl. an empty input), GROUP BY v / s with each aggregate"),
+        g("order-limit-distinct", 64, "ORDER BY every column asc/desc (ties compared as sets), two-key orders, LIMIT {0,1,2,6,100} x OFFSET {none,0,1,2,5,6,7}, DISTINCT on one and two columns"),
+        g("joins", 8, "JOIN / INNER / LEFT / RIGHT x 4 ON conditions (equality, inequality, on a nullable column, conjunction) with and without WHERE, CROSS JOIN, comma join, 3-table joins written in every table order"),
+        g("dml", 4, "DELETE and UPDATE ... WHERE atom for every atom, UPDATE with an expression and with several columns, multi-row INSERT, DELETE without WHERE: reported count and resulting table"),
+    ];
+    if thorough {
+        groups.insert(2, g("where-triples", 512, "10 three-atom shapes printed with minimal parentheses (a OR b AND c, (a OR b) AND c, NOT a AND b, NOT (a AND b), ...) over ALL ordered triples of a 12-atom subset"));
+    } else {
+        // the quick tier still runs the triple shapes, over the first 6 atoms of the subset
+        groups.insert(2, FlatGroup { name: "where-triples".into(), size: (sqlenum::group_size("where-triples") / 8).max(1), chunk: 256, what: "three-atom shapes with minimal parentheses over the first eighth of the ordered triples (thorough: all)".into() });
+    }
+    run_flat(
+        "C05",
+        tier,
+        "exploration",
+        "sqlenum",
+        sqlenum::params(listed),
+        groups,
+        180,
+        &[
+            "populations: t(k INT, v INT, s TEXT) with 6 rows (NULLs in v and s, duplicates, negative, zero, i32::MAX, empty and prefix-related texts), u(k,w) with 5 rows (NULL key, duplicate key, NULL value), w(k,z) with 3 rows",
+            "the reference evaluator interprets the expression TREE with SQL three-valued logic; the engine receives the tree printed with the fewest parentheses that standard SQL precedence allows, so parser binding powers are part of what is compared",
+            "row multisets are compared where SQL leaves the order open; ORDER BY results are compared as sequences with ties as sets; NULL sorts as the largest value (engine convention, DESIGN appendix A.2)",
+            "division, modulo, CASE, sub-queries, HAVING and scalar functions are not in this grammar (they belong to C16)",
+        ],
+        "exhaustive enumeration of the bounded query grammar listed under groups; non-trivial = the reference answer is neither empty nor the whole table",
+        &|f: &str| f.split_once(" ## ").and_then(|(head, _)| head.split_whitespace().last().map(|s| s.to_string())).filter(|id| id.starts_with("KF-") || id.starts_with("KT-")),
+    )
+}
